@@ -1,2 +1,428 @@
-// Package c08: implementation-side ops, generators and oracles for property C08.
 package c08
+
+import (
+	"fmt"
+	"os"
+	"path/filepath"
+	"strings"
+	"sync"
+
+	fsv1 "github.com/cossacklabs/acra/keystore/filesystem"
+	backendapi "github.com/cossacklabs/acra/keystore/v2/keystore/filesystem/backend/api"
+
+	"verifharness/internal/c06"
+	"verifharness/internal/core"
+)
+
+// Line protocol:
+//
+//	C08.v1 <cache> <mode> <k> H <op>… O <op> F <op>…
+//	C08.v2m …   C08.v2d …            (no <cache>)
+//
+// H: fault-free history, O: the write operation under test with the fault (mode none|err|cb|ca|torn at
+// its k-th storage call, 0-based), F: follow-up operations on the reopened store.
+// Answer: "<call>,<call>,…;<outcome>;<obs>|<obs>|…" – the storage calls the operation made (canonical
+// paths), its outcome (ok|err|crash) and the observations of the follow-up operations.
+
+type Scenario struct {
+	Format  c06.Format
+	Cache   int
+	Mode    Mode
+	K       int
+	History []string
+	Op      string
+	Follow  []string
+}
+
+func (sc Scenario) Line() string {
+	head := ""
+	switch sc.Format {
+	case c06.V1:
+		head = fmt.Sprintf("C08.v1 %d", sc.Cache)
+	case c06.V2Mem:
+		head = "C08.v2m"
+	default:
+		head = "C08.v2d"
+	}
+	return fmt.Sprintf("%s %s %d H %s O %s F %s", head, sc.Mode, sc.K, strings.Join(sc.History, " "), sc.Op, strings.Join(sc.Follow, " "))
+}
+
+func parseScenario(f c06.Format, a []string) Scenario {
+	sc := Scenario{Format: f, Cache: -1}
+	if f == c06.V1 {
+		sc.Cache = core.Atoi(a[0])
+		a = a[1:]
+	}
+	sc.Mode, sc.K = Mode(a[0]), core.Atoi(a[1])
+	a = a[2:]
+	sect := ""
+	for _, t := range a {
+		switch t {
+		case "H", "O", "F":
+			sect = t
+			continue
+		}
+		switch sect {
+		case "H":
+			sc.History = append(sc.History, t)
+		case "O":
+			sc.Op = t
+		case "F":
+			sc.Follow = append(sc.Follow, t)
+		}
+	}
+	return sc
+}
+
+// snapshot of what a freshly opened, uncached handle reads
+type snap struct {
+	cur  map[c06.Slot]string // "err" | "<id>" | "<id>/<pubid>"
+	all  map[c06.Slot][]int
+	allE map[c06.Slot]bool
+}
+
+func takeSnap(r *c06.Runner, slots []c06.Slot) snap {
+	sn := snap{map[c06.Slot]string{}, map[c06.Slot][]int{}, map[c06.Slot]bool{}}
+	h, done, err := r.W.Fresh()
+	if err != nil {
+		for _, s := range slots {
+			sn.cur[s] = "err"
+			sn.allE[s] = true
+		}
+		return sn
+	}
+	defer done()
+	for _, s := range slots {
+		priv, pub, err := c06.Cur(h, s)
+		switch {
+		case err != nil:
+			sn.cur[s] = "err"
+		case s.IsPair():
+			if s.Kind == c06.StoragePair {
+				pub, err = c06.Pub(h, s)
+			}
+			if err != nil {
+				sn.cur[s] = c06.IDTok(r.PrivID(s, priv)) + "/err"
+			} else {
+				sn.cur[s] = c06.IDTok(r.PrivID(s, priv)) + "/" + c06.IDTok(r.PubID(s, pub))
+			}
+		default:
+			sn.cur[s] = c06.IDTok(r.PrivID(s, priv))
+		}
+		if s.HasAll() {
+			vals, err := c06.All(h, s)
+			if err != nil {
+				sn.allE[s] = true
+			} else {
+				for _, v := range vals {
+					sn.all[s] = append(sn.all[s], r.PrivID(s, v))
+				}
+			}
+		}
+	}
+	return sn
+}
+
+type Result struct {
+	Calls    []string
+	Outcome  string
+	Obs      []string
+	Findings []c06.Finding
+}
+
+func leftoverV1(dir string) []string {
+	var out []string
+	filepath.Walk(dir, func(p string, info os.FileInfo, err error) error {
+		if err != nil || info.IsDir() || strings.Contains(p, ".old"+string(os.PathSeparator)) {
+			return nil
+		}
+		base := filepath.Base(p)
+		// a key file name followed by digits
+		i := len(base)
+		for i > 0 && base[i-1] >= '0' && base[i-1] <= '9' {
+			i--
+		}
+		if i < len(base) && len(base)-i >= 6 {
+			out = append(out, base)
+		}
+		return nil
+	})
+	return out
+}
+
+func leftoverV2(w *c06.World) []string {
+	var be backendapi.Backend
+	var out []string
+	if w.Format == c06.V2Mem {
+		be = w.Mem
+	} else {
+		filepath.Walk(w.Dir, func(p string, info os.FileInfo, err error) error {
+			if err == nil && strings.HasSuffix(p, ".keyring.new") {
+				out = append(out, p)
+			}
+			return nil
+		})
+		return out
+	}
+	l, _ := be.ListAll()
+	for _, p := range l {
+		if strings.HasSuffix(p, ".keyring.new") {
+			out = append(out, p)
+		}
+	}
+	return out
+}
+
+func slotsOf(toks []string) []c06.Slot {
+	seen := map[c06.Slot]bool{}
+	var out []c06.Slot
+	for _, t := range toks {
+		op, ok := c06.ParseOp(t)
+		if ok && op.Kind != "l" && op.Kind != "r" && op.Kind != "x" && op.Kind != "o" && !seen[op.Slot] {
+			seen[op.Slot] = true
+			out = append(out, op.Slot)
+		}
+	}
+	return out
+}
+
+func fmtName(f c06.Format) string {
+	if f == c06.V1 {
+		return "v1"
+	}
+	return "v2"
+}
+
+// RunScenario executes one fault scenario on the real keystore and judges the statement of C08.
+func RunScenario(sc Scenario) Result {
+	var res Result
+	w, err := c06.NewWorld(sc.Format, sc.Cache)
+	if err != nil {
+		panic("harness: " + err.Error())
+	}
+	defer w.Close()
+	in := &Injector{root: w.Dir}
+	w.WrapStorage = func(s fsv1.Storage) fsv1.Storage { return &faultStorage{s, in} }
+	w.WrapBackend = func(b backendapi.Backend) backendapi.Backend { return &faultBackend{b, in} }
+	if err := w.Open(); err != nil {
+		panic("harness: cannot open keystore: " + err.Error())
+	}
+	r := c06.NewRunner(w)
+	for i, t := range sc.History {
+		op, ok := c06.ParseOp(t)
+		if !ok {
+			panic("harness: bad op " + t)
+		}
+		r.Step(i, op)
+	}
+	op, ok := c06.ParseOp(sc.Op)
+	if !ok {
+		panic("harness: bad op " + sc.Op)
+	}
+	slots := slotsOf(append(append(append([]string{}, sc.History...), sc.Op), sc.Follow...))
+	pre := takeSnap(r, slots)
+	fail := func(class, format string, a ...any) {
+		res.Findings = append(res.Findings, c06.Finding{Class: class, Desc: fmt.Sprintf(format, a...)})
+	}
+
+	// ---- the operation under test
+	in.Arm(sc.Mode, sc.K)
+	res.Outcome = func() (out string) {
+		defer func() {
+			if p := recover(); p != nil {
+				if _, isCrash := p.(crashSignal); isCrash {
+					out = "crash"
+					return
+				}
+				out = "panic"
+				fail("panic-under-fault:"+fmtName(sc.Format), "%s panics under fault %s@%d: %v", sc.Op, sc.Mode, sc.K, p)
+			}
+		}()
+		var err error
+		switch op.Kind {
+		case "g":
+			err = c06.Gen(w.H, op.Slot)
+		case "dc":
+			err = c06.DestroyCur(w.H, op.Slot)
+		case "dr":
+			err = c06.DestroyRot(w.H, op.Slot, op.Idx)
+		default:
+			panic("harness: not a write op: " + sc.Op)
+		}
+		if err != nil {
+			return "err"
+		}
+		return "ok"
+	}()
+	in.Disarm()
+	res.Calls = in.Calls
+
+	// ---- restart
+	if err := w.Open(); err != nil {
+		fail("reopen-fails:"+fmtName(sc.Format), "the keystore cannot be reopened after fault %s@%d in %s: %v", sc.Mode, sc.K, sc.Op, err)
+		return res
+	}
+	r.CacheEmptied()
+	nBefore := r.Generations(op.Slot)
+	if op.Kind == "g" {
+		t := w.TruthOf(op.Slot)
+		var priv, pub []byte
+		if len(t.Priv) > 0 && t.Priv[0] != nil && r.PrivID(op.Slot, t.Priv[0]) == 0 {
+			priv = t.Priv[0]
+		}
+		for _, p := range t.Pub {
+			if p != nil && r.PubID(op.Slot, p) == 0 && len(p) == 45 {
+				pub = p
+				break
+			}
+		}
+		r.ConsumeIdentity(op.Slot, priv, pub)
+	}
+	newID := c06.IDTok(nBefore + 1)
+	post := takeSnap(r, slots)
+	var left []string
+	leftClass := ""
+	if sc.Format == c06.V1 {
+		left = leftoverV1(w.Dir)
+		leftClass = "v1:leftover-temp-file"
+	} else {
+		left = leftoverV2(w)
+		leftClass = "v2:leftover-keyring-new"
+		if len(left) == 0 {
+			// a ring file without a current key (crash/failure between ring creation and SetCurrent)
+			for _, s := range slots {
+				if t := w.TruthOf(s); t.RingExists && t.NoCurrent {
+					left = append(left, "ring-without-current:"+s.String())
+					leftClass = "v2:ring-without-current-key"
+				}
+			}
+		}
+	}
+
+	// ---- clause 1: every key readable before still reads with the same value
+	for _, s := range slots {
+		if s != op.Slot {
+			if post.cur[s] != pre.cur[s] {
+				fail("other-key-changed:"+fmtName(sc.Format), "fault %s@%d in %s changed the current key of %v: %s → %s", sc.Mode, sc.K, sc.Op, s, pre.cur[s], post.cur[s])
+			}
+		}
+		if !s.HasAll() {
+			continue
+		}
+		in := map[int]bool{}
+		for _, id := range post.all[s] {
+			in[id] = true
+		}
+		for j, id := range pre.all[s] {
+			if in[id] {
+				continue
+			}
+			// the key the operation was asked to destroy may be gone
+			if s == op.Slot && op.Kind == "dc" && j == 0 {
+				continue
+			}
+			if s == op.Slot && op.Kind == "dr" {
+				n := len(pre.all[s])
+				if j == n-1-(op.Idx-2) && j >= 1 {
+					continue
+				}
+			}
+			class := "lost-keys:" + fmtName(sc.Format)
+			if sc.Format == c06.V1 && op.Kind == "dc" && s == op.Slot {
+				class = "destroy-current-no-promotion:v1" // C06 known finding: read-all fails without a current file
+			}
+			fail(class, "after fault %s@%d in %s key %d of %v is no longer readable (before %v, after %v err=%v)", sc.Mode, sc.K, sc.Op, id, s, pre.all[s], post.all[s], post.allE[s])
+			break
+		}
+	}
+	// ---- clause 2: the key being written is its old self (or absent) or completely the new one
+	s := op.Slot
+	switch op.Kind {
+	case "g":
+		okSet := map[string]bool{pre.cur[s]: true, newID: true}
+		if s.IsPair() {
+			okSet = map[string]bool{pre.cur[s]: true, newID + "/" + newID: true}
+		}
+		if !okSet[post.cur[s]] {
+			class := "current-corrupt:" + fmtName(sc.Format)
+			if s.IsPair() && sc.Format == c06.V1 && strings.HasPrefix(post.cur[s], newID+"/") {
+				class = "v1:key-pair-half-written"
+			}
+			fail(class, "after fault %s@%d in %s the current key of %v reads %s (before: %s, new: %s): neither the old nor completely the new key", sc.Mode, sc.K, sc.Op, s, post.cur[s], pre.cur[s], newID)
+		}
+	case "dc":
+		if post.cur[s] != pre.cur[s] && post.cur[s] != "err" {
+			class := "current-corrupt:" + fmtName(sc.Format)
+			if s.IsPair() && sc.Format == c06.V1 {
+				class = "v1:key-pair-half-destroyed"
+			}
+			fail(class, "after fault %s@%d in %s the current key of %v reads %s (before: %s): neither intact nor absent", sc.Mode, sc.K, sc.Op, s, post.cur[s], pre.cur[s])
+		}
+	case "dr":
+		if post.cur[s] != pre.cur[s] {
+			fail("current-corrupt:"+fmtName(sc.Format), "fault %s@%d in %s changed the current key of %v: %s → %s", sc.Mode, sc.K, sc.Op, s, pre.cur[s], post.cur[s])
+		}
+	}
+	// ---- clause 3: the keystore keeps accepting reads, listings and further writes
+	for i, t := range sc.Follow {
+		fop, ok := c06.ParseOp(t)
+		if !ok {
+			panic("harness: bad op " + t)
+		}
+		o := r.Step(1000+i, fop)
+		res.Obs = append(res.Obs, o)
+		bad := false
+		switch fop.Kind {
+		case "l", "r", "g":
+			bad = o != "ok" && !strings.HasPrefix(o, "ok:")
+		}
+		if o == "panic" {
+			bad = true
+		}
+		if bad {
+			class := "not-live:" + fop.Kind + ":" + fmtName(sc.Format)
+			if len(left) > 0 {
+				class = leftClass
+			}
+			fail(class, "after fault %s@%d in %s (leftover %v) the follow-up %s answers %s", sc.Mode, sc.K, sc.Op, left, t, o)
+		}
+	}
+	r.ResetFindings()
+	return res
+}
+
+var (
+	lastMu  sync.Mutex
+	lastRes Result
+)
+
+func takeResult() Result {
+	lastMu.Lock()
+	defer lastMu.Unlock()
+	r := lastRes
+	lastRes = Result{}
+	return r
+}
+
+func runLine(f c06.Format, a []string) string {
+	res := RunScenario(parseScenario(f, a))
+	lastMu.Lock()
+	lastRes = res
+	lastMu.Unlock()
+	calls := strings.Join(res.Calls, ",")
+	if calls == "" {
+		calls = "-"
+	}
+	obs := strings.Join(res.Obs, "|")
+	if obs == "" {
+		obs = "-"
+	}
+	return calls + ";" + res.Outcome + ";" + obs
+}
+
+func init() {
+	core.Register("C08.v1", func(a []string) string { return runLine(c06.V1, a) })
+	core.Register("C08.v2m", func(a []string) string { return runLine(c06.V2Mem, a) })
+	core.Register("C08.v2d", func(a []string) string { return runLine(c06.V2Dir, a) })
+	core.RegisterProp("C08", run)
+}
